@@ -33,7 +33,15 @@ def g_dtext(r: random.Random) -> str:
 
 def g_oidlist(r, allow_empty=True):
     n = r.choice([0, 0, 1, 1, 2, 3, 6]) if allow_empty else r.choice([1, 1, 2, 3])
-    return [(gv.g_oid(r) if r.random() < 0.93 else r.choice(["a-", "abc-", "a--b", "x-1-", "msDS-Foo--", "a-b-c"])) for _ in range(n)]
+    def one():
+        x = r.random()
+        if x < 0.12:
+            return r.choice(["cn", "CN", "Cn", "sn", "SN", "top", "TOP", "Top", "objectClass", "objectclass", "msDS-Foo", "msds-foo"])
+        if x < 0.19:
+            return r.choice(["a-", "abc-", "a--b", "x-1-", "msDS-Foo--", "a-b-c"])
+        return gv.g_oid(r)
+
+    return [one() for _ in range(n)]
 
 
 def g_ext(r) -> t.Dict[str, t.List[str]]:
